@@ -200,6 +200,8 @@ def labels(rep, prog, split):
                     n_sites += 1
                     s = side.get(idv["ref"]["did"], set())
                     want = lab.get(a["ref"]["did"])
+                    if not s:
+                        raise AnalysisBroken("split_edge: the create_face call that produces the id '%s' cannot be traced (e.g. returned by a lambda as a pair); label-propagation is not decided" % idv["ref"]["name"])
                     if len(s) == 1 and want in s:
                         rep.ok("C11.label-propagation", prog, split, n, "face %s (built on the side of one parent) receives that parent's label %s" % (idv["ref"]["name"], a["ref"]["name"]))
                     else:
@@ -267,6 +269,10 @@ def winding_sides(rep, prog, split):
         covered_sides |= cs
         if len(cs) == 1 and bs == cs:
             rep.ok("C11.winding-side", prog, split, n, "orientation test and the faces created under it all refer to one parent face")
+        elif not cs or not bs:
+            # neither the test nor the created faces could be traced to a parent face (e.g. the test lives in a lambda that
+            # receives the parent's quantities as parameters and is called once per parent): unknown, not a mix-up
+            raise AnalysisBroken("split_edge: the orientation test at line %s / the faces created under it cannot be traced to a parent face (quantities of %d parent(s), faces on %d side(s)); winding-side is not decided" % (n.get("l"), len(cs), len(bs)))
         else:
             rep.violation("C11.winding-side", prog, split, n, "orientation test mixes the two parent faces",
                           "the orientation test at line %s uses quantities of %d parent face(s) and creates faces on %d side(s): the opposite node, the reference normal and the new faces must all belong to the same parent triangle, otherwise the children of the other triangle get a reversed winding when the two triangles are folded by more than 90 degrees" % (n.get("l"), len(cs), len(bs)))
